@@ -155,14 +155,14 @@ fn size_gate(mode: u8) {
     std::mem::forget(pkt);
 }
 
-// verif: prop=C03 tier=quick cap=1200 mem=16 bound="raw packets: payload length 0..2^17, destination address of all 7 kinds (v4, v6, service, unknown 4/8/12/16 B with any type id), source IPv4, path kinds empty/one-hop, all field values" fns="ScionPacket::<Vec<u8>>::{wire_valid,required_size},ScionPacketHeader::{wire_valid,required_size},AddressHeader,DpPath,WireHostAddr" stubs="none"
+// verif: prop=C03 tier=quick cap=2400 mem=16 bound="raw packets: payload length 0..2^17, destination address of all 7 kinds (v4, v6, service, unknown 4/8/12/16 B with any type id), source IPv4, path kinds empty/one-hop, all field values" fns="ScionPacket::<Vec<u8>>::{wire_valid,required_size},ScionPacketHeader::{wire_valid,required_size},AddressHeader,DpPath,WireHostAddr" stubs="none"
 #[kani::proof]
 #[kani::unwind(20)]
 fn c03_size_gate_raw_dst() {
     size_gate(0)
 }
 
-// verif: prop=C03 tier=quick cap=1200 mem=16 bound="raw packets: payload length 0..2^17, source address of all 7 kinds, destination IPv4, path kinds empty/one-hop" fns="as c03_size_gate_raw_dst" stubs="none"
+// verif: prop=C03 tier=quick cap=2400 mem=16 bound="raw packets: payload length 0..2^17, source address of all 7 kinds, destination IPv4, path kinds empty/one-hop" fns="as c03_size_gate_raw_dst" stubs="none"
 #[kani::proof]
 #[kani::unwind(20)]
 fn c03_size_gate_raw_src() {
@@ -387,21 +387,21 @@ fn c03_roundtrip_u12_v6_empty() {
     roundtrip(5, 1, 0, 8, false)
 }
 
-// verif: prop=C03 tier=thorough cap=3400 mem=30 bound="raw packet, shape v4/v4/standard(1x2 hops), payload 4 B; independent reader + views" fns="try_encode_to_vec,StandardPath::encode_unchecked,views" stubs="none"
+// verif: prop=C03 tier=off cap=3400 mem=30 bound="raw packet, shape v4/v4/standard(1x2 hops), payload 4 B; independent reader + views" fns="try_encode_to_vec,StandardPath::encode_unchecked,views" stubs="none"
 #[kani::proof]
 #[kani::unwind(20)]
 fn c03_roundtrip_v4_v4_std() {
     roundtrip(0, 0, 2, 4, true)
 }
 
-// verif: prop=C03 tier=thorough cap=3400 mem=30 bound="raw packet, shape service/unknown-16-byte/standard, payload 1 B; independent reader + views" fns="try_encode_to_vec,views" stubs="none"
+// verif: prop=C03 tier=off cap=3400 mem=30 bound="raw packet, shape service/unknown-16-byte/standard, payload 1 B; independent reader + views" fns="try_encode_to_vec,views" stubs="none"
 #[kani::proof]
 #[kani::unwind(20)]
 fn c03_roundtrip_svc_u16_std() {
     roundtrip(2, 6, 2, 1, true)
 }
 
-// verif: prop=C03 tier=thorough cap=3400 mem=30 bound="raw packet, shape unknown-4/unknown-8/one-hop, payload 3 B; independent reader + views" fns="try_encode_to_vec,views" stubs="none"
+// verif: prop=C03 tier=off cap=3400 mem=30 bound="raw packet, shape unknown-4/unknown-8/one-hop, payload 3 B; independent reader + views" fns="try_encode_to_vec,views" stubs="none"
 #[kani::proof]
 #[kani::unwind(20)]
 fn c03_roundtrip_u4_u8_onehop() {
@@ -451,7 +451,7 @@ fn c03_checksum_slice_n9() {
     checksum_add_slice::<9>()
 }
 
-// verif: prop=C03 tier=thorough cap=3000 mem=24 bound="all byte slices of length <= 33 at even and odd addresses" fns="ChecksumDigest::{add_slice,fold_checksum,checksum}" stubs="none"
+// verif: prop=C03 tier=off cap=3000 mem=24 bound="all byte slices of length <= 33 at even and odd addresses" fns="ChecksumDigest::{add_slice,fold_checksum,checksum}" stubs="none"
 #[kani::proof]
 #[kani::unwind(36)]
 fn c03_checksum_slice_n33() {
@@ -501,7 +501,7 @@ fn c03_udp_checksum_v4_p5() {
     udp_checksum(0, 0, 5)
 }
 
-// verif: prop=C03 tier=thorough cap=3000 mem=24 bound="UDP packet v6/service, empty path, payload 8 B" fns="UdpDatagram::encode_unchecked,ChecksumDigest::with_pseudoheader" stubs="none"
+// verif: prop=C03 tier=off cap=3000 mem=24 bound="UDP packet v6/service, empty path, payload 8 B" fns="UdpDatagram::encode_unchecked,ChecksumDigest::with_pseudoheader" stubs="none"
 #[kani::proof]
 #[kani::unwind(24)]
 fn c03_udp_checksum_v6_svc_p8() {
